@@ -34,6 +34,13 @@ What is compared, and what is not (rule 1):
   <head>/<body> or the dependency placeholder tags (without them the library drops the dependencies:
   C08's subject), class names are ASCII (finding 11 belongs to C04).
 * evictions *during* one render call (a cache too small for one page) are not modelled.
+* pages containing a class with variables are not pre-rendered (a variables script cannot be
+  regenerated from kept HTML; the feature is marked TODO).
+
+Named deviations (genuine defects of the unchanged tree, KNOWN_FINDINGS.txt; described exactly in
+MC_C19 / Trace_C19, so any *other* wrong answer on the same shape is a VIOLATION):
+  kind-embeds-cached-input-hash:500, prerendered-html-finished-after-eviction:fragment-url-404,
+  class-redefined-same-import-path:stale-code-served.
 """
 from __future__ import annotations
 
@@ -141,8 +148,6 @@ class World:
                 self.registry.unregister(n)
             except Exception:
                 pass
-        for w in self.wrappers.values():
-            pass
         self.names = []
 
     # ---- actions
@@ -605,7 +610,7 @@ def configurations(tier: str) -> List[Dict[str, Any]]:
              maxlen=2 if q else 3, kinds=INVALID_KINDS, inputs=INVALID_INPUTS, methods=METHODS),
         # extension: HTML pre-rendered with render_dependencies=False, post-processed later
         dict(name="S", conf=[cf(js=True, css=True), cf(css=True)], pages=[[1, 2]] if q else [[1], [1, 2]], modes=BOTH,
-             maxlen=5, ext=["split"]),
+             maxlen=4 if q else 5, ext=["split"]),
         # extension: class redefined under the same import path
         dict(name="D", conf=[cf(js=True, css=True), cf(js=True, vars=True)], pages=[[1, 2]] if q else [[1], [2]],
              modes=BOTH, maxlen=4 if q else 5, ext=["redef"], maxver=3),
@@ -755,9 +760,36 @@ def _emit_event(a: Dict[str, Any], obs: Dict[str, Any]) -> Dict[str, Any]:
             "exc": obs.get("exc") or ""}
 
 
-def validate_traces(chk: Check, ntraces: int, length: int, ext: bool, tag: str) -> None:
-    rnd = random.Random(chk.seed * 7919 + 19 + (1000 if ext else 0))
-    traces = [record_trace(rnd, i + 1, length, ext) for i in range(ntraces)]
+class media_backend:
+    """Run with COMPONENTS.cache naming a configured Django cache (here Django's own default
+    LocMemCache alias, TIMEOUT 300 s / MAX_ENTRIES 300) instead of the library's private LocMemCache."""
+
+    def __init__(self, alias: Optional[str]):
+        self.alias = alias
+
+    def __enter__(self):
+        from django.conf import settings
+        import django_components.cache as dcache
+        self.old = settings.COMPONENTS
+        if self.alias is not None:
+            settings.COMPONENTS = dict(self.old, cache=self.alias)
+            dcache.component_media_cache = None
+            from django.core.cache import caches
+            if dcache.get_component_media_cache() is not caches[self.alias]:
+                raise MachineryError("COMPONENTS.cache was not honoured by get_component_media_cache()")
+
+    def __exit__(self, *a):
+        from django.conf import settings
+        import django_components.cache as dcache
+        if self.alias is not None:
+            settings.COMPONENTS = self.old
+            dcache.component_media_cache = None
+
+
+def validate_traces(chk: Check, ntraces: int, length: int, ext: bool, tag: str, backend: Optional[str] = None) -> None:
+    rnd = random.Random(chk.seed * 7919 + 19 + (1000 if ext else 0) + (5000 if backend else 0))
+    with media_backend(backend):
+        traces = [record_trace(rnd, i + 1, length, ext) for i in range(ntraces)]
     w = workdir("c19tr")
     f = w / f"traces_{tag}.ndjson"
     tlc.write_ndjson(f, traces)
@@ -792,6 +824,82 @@ def validate_traces(chk: Check, ntraces: int, length: int, ext: bool, tag: str) 
     chk.sample({"trace_head": {"conf": traces[0]["conf"], "events": traces[0]["events"][:3]}}, limit=8)
 
 
+def corrupted_traces() -> int:
+    """Selftest (i): corrupt one field of a recorded trace; Trace_C19 must reject it at that event
+    with the right clause.  Returns the number of corruptions that were NOT rejected as expected."""
+    import copy
+    rnd = random.Random(1919)
+    base = [record_trace(rnd, i + 1, 30, ext=False) for i in range(8)]
+
+    def first(t, pred):
+        for n, e in enumerate(t["events"]):
+            if pred(e):
+                return n
+        return None
+
+    def is_render(e):
+        return e["op"] == "render" and len(e["emitted"]) >= 1 and not e["err"]
+
+    def to404(e):
+        e["fetch"][0].update(st=404, c=0, k="", i="", v=0, ct="text/html")
+
+    def drop(e):
+        e["emitted"].pop(); e["chan"].pop(); e["fetch"].pop()
+
+    muts = [
+        ("emitted-url-answers-404", "emitted_served", is_render, to404),
+        ("emitted-url-answers-500", "emitted_served", is_render, lambda e: e["fetch"][0].update(st=500, c=0, k="", i="", v=0)),
+        ("served-with-text/plain", "content_type", is_render, lambda e: e["fetch"][0].update(ct="text/plain")),
+        ("announced-url-missing", "emitted_set", is_render, drop),
+        ("announced-in-the-other-list", "channel", is_render,
+         lambda e: e["chan"].__setitem__(0, "toload" if e["chan"][0] == "loaded" else "loaded")),
+        ("another-components-code", "emitted_served", is_render, lambda e: e["fetch"][0].update(c=e["fetch"][0]["c"] + 1)),
+        ("other-kind-served", "emitted_served", is_render,
+         lambda e: e["fetch"][0].update(k="css" if e["fetch"][0]["k"] == "js" else "js")),
+        ("render-raised", "render_error", is_render, lambda e: e.update(err=True)),
+        ("post-answers-200", "answer", lambda e: e["op"] == "get" and e["req"]["m"] == "POST",
+         lambda e: e["out"].update(st=200, c=max(1, e["req"]["c"]), k="js", i="main", v=1, ct="text/javascript")),
+        ("unknown-hash-answers-500", "answer", lambda e: e["op"] == "get" and e["req"]["c"] == 0 and e["req"]["m"] == "GET",
+         lambda e: e["out"].update(st=500)),
+        ("invalid-kind-answers-200", "answer",
+         lambda e: e["op"] == "get" and e["req"]["k"] in ("txt", "JS", "jss", "map") and e["req"]["m"] == "GET" and e["req"]["c"] > 0,
+         lambda e: e["out"].update(st=200, c=e["req"]["c"], k="js", i="main", v=1, ct="text/javascript")),
+    ]
+    traces, expect = [], {}
+    for name, clause, pred, mut in muts:
+        for t in base:
+            n = first(t, pred)
+            if n is not None:
+                t2 = copy.deepcopy(t)
+                mut(t2["events"][n])
+                t2["id"] = len(traces) + 1
+                traces.append(t2)
+                expect[t2["id"]] = (name, clause, n + 1)
+                break
+        else:
+            raise MachineryError(f"no recorded event to corrupt for {name}")
+    control = copy.deepcopy(base[0])
+    control["id"] = len(traces) + 1
+    traces.append(control)
+    w = workdir("c19cor")
+    f = w / "corrupted.ndjson"
+    tlc.write_ndjson(f, traces)
+    cfg = w / "trace.cfg"
+    cfg.write_text("SPECIFICATION TrSpec\nINVARIANT TrMustServeDetermined\n")
+    r = tlc.require_ok(tlc.run("Trace_C19", str(cfg), env={"IN": str(f)}, workers=1), "Trace_C19 corrupted")
+    v = tlc.verdicts(r, len(traces), "Trace_C19 corrupted")
+    missed = 0
+    for tid, (name, clause, ev) in expect.items():
+        why = v["rejected"].get(tid)
+        ok = why is not None and why["event"] == ev and f'"{clause}"' in why["clauses"]
+        print(f"  corrupted trace {name}: {'rejected at event %d by %s' % (ev, why['clauses']) if ok else 'NOT REJECTED AS EXPECTED ' + repr(why)}")
+        missed += 0 if ok else 1
+    if control["id"] not in v["accepted"]:
+        print("  control trace: NOT ACCEPTED")
+        missed += 1
+    return missed
+
+
 # ================================================================= entry points
 def core(chk: Check, tier: str, procs: int, small: bool = False) -> None:
     if small:       # selftest body: same machinery, reduced sizes, one process
@@ -799,11 +907,14 @@ def core(chk: Check, tier: str, procs: int, small: bool = False) -> None:
         model_check_and_replay(chk, "quick", 1, only=["H2", "R", "S", "D"], limit=60)
         validate_traces(chk, 10, 25, ext=False, tag="core")
         validate_traces(chk, 6, 25, ext=True, tag="ext")
+        validate_traces(chk, 4, 25, ext=True, tag="backend", backend="default")
         return
     q = tier == "quick"
     model_check_and_replay(chk, tier, procs)
     validate_traces(chk, 150 if q else 1500, 30 if q else 40, ext=False, tag="core")
     validate_traces(chk, 100 if q else 1000, 30 if q else 40, ext=True, tag="ext")
+    # the same histories with COMPONENTS.cache = a configured Django cache alias
+    validate_traces(chk, 50 if q else 500, 30 if q else 40, ext=True, tag="backend", backend="default")
 
 
 def run(tier: str) -> int:
@@ -856,8 +967,12 @@ def replay(path: str) -> int:
                     bad += b
                     bad += [{"deviation": x} for x in devs]
                     if a["res"] == "dev":
-                        bad.append({"deviation": case["row"]["dev"],
-                                    "answers": [[e["url"], e["out"]["st"]] for e in obs["emitted"]]})
+                        dead = set(map(tuple, case["row"]["dead"]))
+                        if any(tuple(e["entry"]) in dead and e["out"]["st"] == 404 for e in obs["emitted"]):
+                            bad.append({"deviation": case["row"]["dev"],
+                                        "answers": [[e["url"], e["out"]["st"]] for e in obs["emitted"]]})
+                        else:
+                            bad = [x for x in bad if x.get("what") != "emitted_served"]
         finally:
             w.close()
         print(json.dumps(bad, indent=1, default=repr))
@@ -878,7 +993,7 @@ def selftest(tier: str) -> int:
     boot.setup()
     import django_components.component as dcomp
     import django_components.dependencies as dep
-    from django.http import HttpResponse, HttpResponseNotFound
+    from django.http import HttpResponse
 
     @contextmanager
     def patch(obj, name, new):
@@ -1011,7 +1126,8 @@ def selftest(tier: str) -> int:
         _KEEP_EXPORTS = True
         core(chk, "quick", 1, small=True)
 
-    return run_probes(PID, [
+    missed = corrupted_traces()
+    rc = run_probes(PID, [
         ("already-cached-shortcut-survives-clear", shortcut_survives_clear),
         ("css-cached-only-when-class-has-js", css_needs_js),
         ("css-served-as-text/plain", wrong_content_type),
@@ -1026,3 +1142,4 @@ def selftest(tier: str) -> int:
         ("view-ignores-input-hash", input_hash_ignored),
         ("only-first-class-after-clear-is-cached", first_class_only_cached),
     ], body)
+    return 1 if (rc or missed) else 0
